@@ -93,6 +93,7 @@ func Leaves() []NC {
 		NC{"LiteralValue{object_oddkeys}", func() schema.Constraint {
 			return schema.LiteralValue{Value: cty.ObjectVal(map[string]cty.Value{"a b": cty.StringVal("v"), "1st": cty.NumberIntVal(2), "ok": cty.True})}
 		}},
+		NC{"LiteralValue{\"a $ b } c\"}", func() schema.Constraint { return schema.LiteralValue{Value: cty.StringVal("a $ b } c")} }},
 		NC{"LiteralValue{1e30}", func() schema.Constraint { return schema.LiteralValue{Value: cty.MustParseNumberVal("1e30")} }},
 		NC{"LiteralValue{-2.5}", func() schema.Constraint { return schema.LiteralValue{Value: cty.MustParseNumberVal("-2.5")} }},
 		NC{"LiteralValue{[]}", func() schema.Constraint { return schema.LiteralValue{Value: cty.ListValEmpty(cty.String)} }},
@@ -195,9 +196,9 @@ func degenerates() []NC {
 		}},
 		{"Object{\u00e9t\u00e9:LiteralType{string},\u00e9cole:Any{string},foo:LiteralType{bool}}", func() schema.Constraint {
 			return schema.Object{Attributes: schema.ObjectAttributes{
-				"\u00e9t\u00e9":  {Constraint: schema.LiteralType{Type: cty.String}, IsOptional: true},
-				"\u00e9cole": {Constraint: schema.AnyExpression{OfType: cty.String}, IsOptional: true},
-				"foo":   {Constraint: schema.LiteralType{Type: cty.Bool}, IsOptional: true}}}
+				"\u00e9t\u00e9": {Constraint: schema.LiteralType{Type: cty.String}, IsOptional: true},
+				"\u00e9cole":    {Constraint: schema.AnyExpression{OfType: cty.String}, IsOptional: true},
+				"foo":           {Constraint: schema.LiteralType{Type: cty.Bool}, IsOptional: true}}}
 		}},
 		// tuples whose later elements cannot be pre-filled, behind one that can
 		{"Tuple{LiteralType{string},Reference{OfType string}}", func() schema.Constraint {
